@@ -362,6 +362,20 @@ pub fn cmd_record(args: &HashMap<String, String>) -> i32 {
                         (None, 1) => Some("Sys:ftruncate"),
                         _ => None,
                     };
+                    // power loss: aim at the instants where something is NOT yet on stable storage (a table stored to
+                    // and not msynced, a record appended and not fdatasynced, a clean-up half way through its msyncs)
+                    let (aimed, skip) = if do_power && forced_aim.is_none() {
+                        let c = ["TabWrite", "EndRecord", "EnactEnd", "Sys:msync", "Sys:fdatasync", "TablesFlushed"];
+                        let i = rng.gen::<usize>() % (c.len() + 2);
+                        if i < c.len() {
+                            (Some(c[i]), rng.gen::<usize>() % 4)
+                        } else {
+                            (aimed, 0)
+                        }
+                    } else {
+                        (aimed, 0)
+                    };
+                    let nmatch = Arc::new(AtomicUsize::new(0));
                     let j = rng.gen::<usize>() % 40;
                     let cut: Arc<Mutex<Option<usize>>> = Arc::new(Mutex::new(None));
                     let cut2 = cut.clone();
@@ -373,7 +387,7 @@ pub fn cmd_record(args: &HashMap<String, String>) -> i32 {
                     rec.set_callback(Some(Arc::new(move |name: &str, _a: &[u64], pos: usize| {
                         let k = n.fetch_add(1, Ordering::SeqCst);
                         let hit = match aimed {
-                            Some(prefix) => name.starts_with(prefix),
+                            Some(prefix) => name.starts_with(prefix) && nmatch.fetch_add(1, Ordering::SeqCst) >= skip,
                             None => k == j,
                         };
                         if hit && cut2.lock().unwrap().is_none() {
